@@ -1,6 +1,6 @@
 /- C02: executable (fuelled) reference big-step semantics of the core language AFTER macro expansion:
    def var set if do while break fn (plain, &opt, &, &keys, &named, destructured parameters, named recursion) quote quasiquote
-   unquote splice upscope, destructuring, closures over mutable variables (boxes in the heap), calls of core functions
+   unquote splice upscope, destructuring, closures over mutable variables (boxes in a store of their own), calls of core functions
    (`Bytecode/ExecCore.callPrim`), ordered effect trace, errors with the position of the raising form (an unmapped form
    inherits the position of the nearest enclosing mapped form, as `c->current_mapping` does in compile.c).
    Scoping is lexical and sequential: `eval` returns the environment extended by the bindings the form introduced; `do`,
@@ -20,7 +20,7 @@ inductive Expr where
   | stc (xs : List Expr)                  -- { ... } flat
   deriving Inhabited
 
-abbrev Env := List (String × Nat)         -- name ↦ heap address of its box (a one-element array)
+abbrev Env := List (String × Nat)         -- name ↦ index of its box in `SS.boxes`
 
 structure Lam where
   params : List Expr
@@ -32,6 +32,7 @@ structure Lam where
 structure SS where
   st : State := {}
   lams : Array Lam := #[]
+  boxes : Array Value := #[]              -- the variables' boxes: a store of their own, out of reach of every value
   deriving Inhabited
 
 inductive R (α : Type) where
@@ -45,16 +46,12 @@ def lookupEnv : Env → String → Option Nat
   | [], _ => none
   | (n, a) :: rest, x => if n == x then some a else lookupEnv rest x
 
-def readBox (s : SS) (a : Nat) : Value :=
-  match s.st.heap[a]? with
-  | some (.arr xs) => xs.getD 0 .nil
-  | _ => .nil
+def readBox (s : SS) (a : Nat) : Value := s.boxes.getD a .nil
 
-def writeBox (s : SS) (a : Nat) (v : Value) : SS := { s with st := { s.st with heap := s.st.heap.setIfInBounds a (.arr #[v]) } }
+def writeBox (s : SS) (a : Nat) (v : Value) : SS := { s with boxes := s.boxes.setIfInBounds a v }
 
 def bind (env : Env) (name : String) (v : Value) (s : SS) : Env × SS :=
-  let (st', a) := s.st.alloc (.arr #[v])
-  ((name, a) :: env, { s with st := st' })
+  ((name, s.boxes.size) :: env, { s with boxes := s.boxes.push v })
 
 def rtErr : Value := .str "<rt>"
 
